@@ -112,6 +112,61 @@ def extra_corpus():
     return out
 
 
+NAMED = {"a": 7, "b": 8, "e": 27, "t": 9, "n": 10, "v": 11, "f": 12, "r": 13, '"': 34, "\\": 92}
+
+
+def escape_cases():
+    """(query text as bytes, expected bytes of the one string it yields): every spelling of every byte, in
+    every following context that could change how the escape is delimited."""
+    out = []
+    suffixes = [b"", b"9", b"0", b"7", b"a", b"x", b" ", b"\\\\", b'\\"']
+    sufval = {b"": b"", b"9": b"9", b"0": b"0", b"7": b"7", b"a": b"a", b"x": b"x", b" ": b" ", b"\\\\": b"\\", b'\\"': b'"'}
+    for b in range(256):
+        spell = []
+        o = "%o" % b
+        for width in (1, 2, 3):
+            t = o.rjust(width, "0")
+            if len(o) <= width and t[0] in "0123":
+                spell.append(("oct%d" % width, ("\\" + t).encode()))
+        spell.append(("hex", b"\\x%02x" % b))
+        spell.append(("HEX", b"\\x%02X" % b))
+        for k, v in NAMED.items():
+            if v == b:
+                spell.append(("named", b"\\" + k.encode()))
+        if b not in (34, 92, 37):
+            spell.append(("literal", bytes([b])))
+        if b == 37:
+            spell.append(("percent", b"%%"))
+        for kind, sp in spell:
+            for suf in suffixes:
+                # an octal escape shorter than three digits swallows following octal digits: that is a different literal
+                if kind in ("oct1", "oct2") and suf[:1] in (b"0", b"7"):
+                    continue
+                out.append((b'"' + sp + suf + b'"', bytes([b]) + sufval[suf]))
+                out.append((b'"p' + sp + suf + b'q"', b"p" + bytes([b]) + sufval[suf] + b"q"))
+    # escaped newline is ignored, a literal newline stands for itself, raw strings keep escapes
+    out.append((b'"foo\\\nbar"', b"foobar"))
+    out.append((b'"foo\nbar"', b"foo\nbar"))
+    out.append((b'r"a\\x41\\n\\0"', b"a\\x41\\n\\0"))
+    out.append((b'r"a\\"b"', b'a\\"b'))
+    out.append((b'"a"\\ r"\\t"\\ "\\t"', b"a\\t\t"))
+    return out
+
+
+def _escape_worker(d, chunk, extra):
+    out = {"n": 0, "bad": []}
+    rs = d.batch([drv.run_cmd(t, lim=3) for t, _ in chunk])
+    for (t, exp), r in zip(chunk, rs):
+        out["n"] += 1
+        got = r.results()
+        want = ["s:x%s@0" % exp.hex()]
+        if r.crash or got != want:
+            out["bad"].append(("escape:" + t.hex(), "string literal %r denotes bytes %r per the documentation, engine yields %r %r" % (t, exp, got, r.lines[:1] if not got else ""),
+                               {"escape": t.hex(), "expect": exp.hex()}))
+    out["bad"] = out["bad"][:10]
+    return out
+
+
 def classify_err(r):
     q = r.first("qerr")
     if q is not None:
@@ -202,6 +257,12 @@ def _worker(d, task, extra):
 def replay(case):
     ctx = common.Ctx("C15", "quick")
     b = ctx.bin("zwdrv")
+    if "escape" in case:
+        d = drv.Drv(b, "core")
+        try:
+            return bool(_escape_worker(d, [(bytes.fromhex(case["escape"]), bytes.fromhex(case["expect"]))], None)["bad"])
+        finally:
+            d.close()
     codes, _ = c03.setup_info(b)
     zwmodel.set_type_codes(codes)
     d = drv.Drv(b, "core")
@@ -237,9 +298,14 @@ def main(ctx):
                 kinds[k] = kinds.get(k, 0) + v
             for key, what, case in r["bad"]:
                 ctx.violation(key, what, case)
+    for r in common.pmap(ctx, _escape_worker, common.chunks(escape_cases(), 300), bins["zwdrv"], "core", timeout=60):
+        ctx.count("escape_spellings", r["n"])
+        kinds["escape-spelling"] = kinds.get("escape-spelling", 0) + r["n"]
+        for key, what, case in r["bad"]:
+            ctx.violation(key, what, case)
     t = zwgen.by_size(2)[2][20][1]
     ctx.sample({"program": zwmodel.render(t), "rewrites": [v[2] for v in list(variants(t))[:6]]})
-    n = ctx.counts.get("rewrites_executed", 0)
+    n = ctx.counts.get("rewrites_executed", 0) + ctx.counts.get("escape_spellings", 0)
     cov = {
         "states": n + ctx.counts.get("programs", 0),
         "transitions": n + ctx.counts.get("programs", 0),
@@ -250,7 +316,8 @@ def main(ctx):
         "rule": "state = (program, one rewrite at one position) run on the engine and compared with the unrewritten program on the same inputs; "
                 "distinct = distinct (program, rewrite, position); distinct_outcomes = rewrites applied per kind",
         "bounds": {"corpora": "Z_3 transformers up to 3 nodes (4 thorough) on inputs 0,1,2; binder programs of depth 1 (every 4th of depth 2 thorough); literal/format/infix corpus",
-                   "layouts": LAYOUTS},
+                   "layouts": LAYOUTS,
+                   "escapes": "every byte 0-255 x every spelling (1-3 digit octal, \\xhh, \\xHH, named, literal, %%) x 9 following contexts, compared with the bytes it denotes"},
     }
     return ctx.finish("model_checking", cov, [
         "both sides of every equivalence are executed on the implementation; no model is involved",
